@@ -278,4 +278,61 @@ theorem C16_idempotent (prefer : Option Fam) (l : List Addr) :
 example : sortPreferred none [⟨false, 1, 80⟩, ⟨false, 2, 80⟩, ⟨true, 3, 80⟩, ⟨true, 4, 80⟩]
     = [⟨true, 3, 80⟩, ⟨false, 1, 80⟩, ⟨false, 2, 80⟩, ⟨true, 4, 80⟩] := by decide
 
+/-! ## Order within each family -/
+
+theorem filter_eraseP_disjoint (p q : Addr → Bool) (hd : ∀ a, q a = true → p a = false) (l : List Addr) :
+    (l.eraseP q).filter p = l.filter p := by
+  induction l with
+  | nil => simp
+  | cons a rest ih =>
+    by_cases hq : q a = true
+    · simp [hq, hd a hq]
+    · by_cases hp : p a = true <;> simp [hq, hp, ih]
+
+theorem find_eraseP_filter (p : Addr → Bool) (l : List Addr) :
+    (l.find? p).toList ++ (l.eraseP p).filter p = l.filter p := by
+  induction l with
+  | nil => simp
+  | cons a rest ih =>
+    by_cases hp : p a = true
+    · simp [hp]
+    · simp [hp, ih]
+
+theorem otherPref_disjoint (prefer : Option Fam) (a : Addr) :
+    otherPred prefer a = true → prefPred prefer a = false := by
+  intro h
+  cases hp : prefPred prefer a
+  · rfl
+  · have := prefOther_disjoint prefer a hp; simp_all
+
+theorem find_filter_none (p q : Addr → Bool) (hd : ∀ a, q a = true → p a = false) (l : List Addr) :
+    (l.find? q).toList.filter p = [] := by
+  cases h : l.find? q with
+  | none => simp
+  | some b => simp [hd b (List.find?_some h)]
+
+theorem find_filter_self (p : Addr → Bool) (l : List Addr) : (l.find? p).toList.filter p = (l.find? p).toList := by
+  cases h : l.find? p with
+  | none => simp
+  | some b => simp [List.find?_some h]
+
+/-- **C16 (order kept within each family).** Restricted to either family, the sorted list is the resolver's answer
+    restricted to that family: sorting only ever moves one address of each family to the front, it never reorders
+    two addresses of the same family. -/
+theorem C16_family_order (prefer : Option Fam) (l : List Addr) :
+    (sortPreferred prefer l).filter (prefPred prefer) = l.filter (prefPred prefer) ∧
+    (sortPreferred prefer l).filter (otherPred prefer) = l.filter (otherPred prefer) := by
+  rw [C16_eq_spec]
+  unfold spec
+  have hpo := prefOther_disjoint prefer
+  have hop := otherPref_disjoint prefer
+  generalize prefPred prefer = p at *
+  generalize otherPred prefer = q at *
+  constructor
+  · rw [List.filter_append, List.filter_append, find_filter_self, find_filter_none p q hop,
+      filter_eraseP_disjoint p q hop, List.append_nil, find_eraseP_filter]
+  · rw [List.filter_append, List.filter_append, find_filter_self, find_filter_none q p hpo, List.nil_append,
+      ← find_eraseP_disjoint p q hpo l, find_eraseP_filter]
+    exact filter_eraseP_disjoint q p hpo l
+
 end Hd.Dns
